@@ -974,4 +974,4 @@ def check(ctx):
     r7_inheritance(ctx)
 
 
-CLAUSE += '; the RON reader goes as deep as the writer; strings are handed between builder functions and written by the attribute macros as given; every source of from! reaches the Import'
+CLAUSE += ' Also: the RON reader goes as deep as the writer; strings are handed between builder functions and written by the attribute macros as given; every source of from! reaches the Import.'
